@@ -65,8 +65,10 @@ PoolSet  == IF Scope = "quick" THEN PoolsQuick ELSE PoolsThorough
 Slots == 1..3
 PosU  == UNION {[1..k -> Slots] : k \in 0..MaxArgs}
 Forms == {f \in [pos : PosU, kw : 0..3] : NArgs(f) <= MaxArgs}
-MkCall(op, col, f, x, on) == [op |-> op, col |-> col, pos |-> f.pos, kw |-> f.kw, x |-> x, on |-> on]
-NoCall == [op |-> "", col |-> "", pos |-> <<>>, kw |-> 0, x |-> 0, on |-> "t"]
+\* (the fields are written in the order in which TLC keeps them once normalised: records are sorted in place, and a record
+\*  printed by one worker while being sorted has been seen to lose a field)
+MkCall(op, col, f, x, on) == [pos |-> f.pos, kw |-> f.kw, op |-> op, col |-> col, x |-> x, on |-> on]
+NoCall == [pos |-> <<>>, kw |-> 0, op |-> "", col |-> "", x |-> 0, on |-> "t"]
 Probe(c) == Len(c.pos) <= 1 /\ c.kw = 0 /\ c.x = 0 /\ c.on = "t"     \* t.inc(q), t.exc(f), t.find_a(q), t.one_or_none(q), t.inc()
 \* the previous call repeated (or complemented) on its own result with the very same arguments: r = t.inc(q1, q2); r.inc(q1, q2)
 Echo(c) == c.on = "last" /\ c.op \in {"inc", "exc"} /\ c.pos = last.call.pos /\ c.kw = last.call.kw
